@@ -875,6 +875,9 @@ func c03Work(c *engine.Ctx) {
 		{"async:for(;;)break async;", "Stmt(async : Stmt(for ; ; Stmt({ Stmt(break async) })))", false},
 		{"let f;{function f(){}}", "Decl(let Binding(f)) Stmt({ Decl(function f Params() Stmt({ })) })", false},
 		{"for(let in a);", "Stmt(for let in a Stmt({ }))", false},
+		{"for(async in x);", "Stmt(for async in x Stmt({ }))", false},
+		{"for((async) of x);", "Stmt(for (async) of x Stmt({ }))", false},
+		{"for await(async of x);", "Stmt(for await async of x Stmt({ }))", false},
 		{"({[[1][0]]:b})=>b", "Stmt(Params(Binding({ [[1][0]]: Binding(b) })) => Stmt({ Stmt(return b) }))", false},
 		{"({[{x:1}.x]:b})=>b", "Stmt(Params(Binding({ [{x: 1}.x]: Binding(b) })) => Stmt({ Stmt(return b) }))", false},
 		{"for(x={['a' in b]:1};;);", "Stmt(for (x={['a' in b]: 1}) ; ; Stmt({ }))", false},
